@@ -128,7 +128,14 @@ TIso == /\ l <= Len(TraceLog) /\ Line.ev = "iso"
         /\ cover' = cover \cup {<<"iso", phase, Line.dir>>}
         /\ l' = l + 1 /\ UNCHANGED <<cfg, phase, nd, oks, tokOk, last>>
 
-TNext == TReset \/ TPkt \/ TIso
+\* after the packet loop has ended (the client has not hung up): did the gateway close the connection it answers on?
+\* lastk = kind of the packet that ended the tunnel
+TFin == /\ l <= Len(TraceLog) /\ Line.ev = "fin"
+        /\ viol' = viol \cup (IF ~Line.closed THEN {<<l, IF Line.lastk = "hs" THEN "G_C17_RefusalEndsTheTunnel" ELSE "G_C11_EndedTunnelIsClosed", phase, Line.lastk, "valid">>} ELSE {})
+        /\ cover' = cover \cup {<<"fin", phase, Line.lastk>>}
+        /\ l' = l + 1 /\ UNCHANGED <<cfg, phase, nd, oks, tokOk, last>>
+
+TNext == TReset \/ TPkt \/ TIso \/ TFin
 TSpec == TInit /\ [][TNext]_tvars
 
 \* printed exactly once, when the whole log has been consumed
